@@ -44,7 +44,7 @@ fn main() {
             }
             rich::run(
                 &mut ctx,
-                &rich::RichOpts { n: num("n", 200) as usize, seed: num("seed", 1), tree, arbitrary_sel: get("arbsel", "0.2").parse().unwrap(), bad_paths: true, also_verify_issued: true, xfmt: get("xfmt", "0") == "1", only_issue: get("only", "") == "issue", plant: get("plant", "0").parse().unwrap(), decoy_on: get("decoy", "0") == "1" },
+                &rich::RichOpts { n: num("n", 200) as usize, seed: num("seed", 1), tree, arbitrary_sel: get("arbsel", "0.2").parse().unwrap(), bad_paths: true, also_verify_issued: true, xfmt: get("xfmt", "0") == "1", only_issue: get("only", "") == "issue", plant: get("plant", "0").parse().unwrap(), decoy_on: get("decoy", "0") == "1", kb_on: get("kb", "0") == "1" },
             );
         }
         "attack" => attack::run(
@@ -74,7 +74,7 @@ fn main() {
             threads::run(&mut ctx, &cfgs)
         }
         "fuzz" => fuzz::run(&mut ctx, &out, num("n", 20) as usize, num("seed", 1)),
-        "history" => history::run(&mut ctx, &history::HistOpts { scn: get("scn", ""), limit: num("n", 1_000_000) as usize, random: num("random", 0) as usize, seed: num("seed", 1) }),
+        "history" => history::run(&mut ctx, &history::HistOpts { only: get("only", ""), scn: get("scn", ""), limit: num("n", 1_000_000) as usize, random: num("random", 0) as usize, seed: num("seed", 1) }),
         "replay" => replay::run(&mut ctx, &replay::ReplayOpts { scn: get("scn", "scn.ndjson"), limit: num("n", 1_000_000) as usize, matrix: get("matrix", "1") == "1", seed: num("seed", 1) }),
         d => {
             eprintln!("unknown driver {d}");
